@@ -86,7 +86,8 @@ fn reference_pairs(buf: &[u8]) -> Vec<(u32, std::ops::Range<usize>)> {
 }
 
 fn same_slice(a: &[u8], buf: &[u8], r: &std::ops::Range<usize>) -> bool {
-    a.len() == r.len() && (a.is_empty() || a.as_ptr() == buf[r.start..].as_ptr()) && a == &buf[r.clone()]
+    // same position and same length = the same bytes (no need to read them: some buffers are huge)
+    a.len() == r.len() && (a.is_empty() || a.as_ptr() == buf[r.start..].as_ptr())
 }
 
 /// Where the borrowed bytes sit: `Some(k)` copies them to an address congruent to k modulo 8
@@ -421,6 +422,56 @@ fn all_placements(ctx: &Ctx, rep: &mut Report, unit: &mut usize, max_words: usiz
     rep.note(format!("placements: every buffer of 2..={} words over the {}-word alphabet (with and without a 3-byte trailer) borrowed at every address modulo 4; the main enumeration rotates borrowed buffers through all addresses modulo 8", max_words, WORDS_SMALL.len()));
 }
 
+fn huge_cases() -> Vec<(&'static str, Vec<u32>, usize)> {
+    vec![
+        ("N=1, payload 2^32+5", vec![1u32, 0x41], (1usize << 32) + 5),
+        ("N=2, first value 10 bytes, payload 2^32+5", vec![2u32, 10, 0x41, 0x42], (1usize << 32) + 5),
+        ("N=2, first value 10 bytes, payload 2^32-1", vec![2u32, 10, 0x41, 0x42], (1usize << 32) - 1),
+        ("N=3, payload 2^33+1", vec![3u32, 4, 8, 1, 2, 3], (1usize << 33) + 1),
+    ]
+}
+
+fn huge_buffer(header: &[u32], payload: usize) -> Vec<u8> {
+    let mut buf: Vec<u8> = vec![0u8; header.len() * 4 + payload];
+    for (i, w) in header.iter().enumerate() {
+        buf[4 * i..4 * i + 4].copy_from_slice(&w.to_le_bytes());
+    }
+    buf
+}
+
+/// Payloads of 4 GiB and more (the last value runs to the end of the buffer, so the format allows
+/// them): offsets are 32-bit, lengths are not.  The buffers are lazily zeroed allocations of which
+/// only the header pages are ever touched; values are compared by position and length.
+fn huge_payloads(ctx: &Ctx, rep: &mut Report, unit: &mut usize) {
+    let u = *unit;
+    *unit += 1;
+    if !ctx.owns(u) {
+        return;
+    }
+    for (name, header, payload) in huge_cases() {
+        let buf = huge_buffer(&header, payload);
+        rep.evaluations += 1;
+        rep.count("huge_payload_buffers", 1);
+        match check_buffer_at(&buf, false, None) {
+            Ok(true) => {
+                rep.nontrivial += 1;
+                rep.transitions += 1;
+            }
+            Ok(false) => rep.violation(Violation {
+                key: format!("C12:huge:{}", name.replace(' ', "")),
+                summary: format!("MessageView on a {}-byte buffer ({}): rejected although the format allows it", buf.len(), name),
+                replay_text: format!("check: view-huge\ncase: {}\n", name),
+            }),
+            Err(e) => rep.violation(Violation {
+                key: format!("C12:huge:{}", name.replace(' ', "")),
+                summary: format!("MessageView on a {}-byte buffer ({}): {}", buf.len(), name, e),
+                replay_text: format!("check: view-huge\ncase: {}\nobserved: {}\n", name, e),
+            }),
+        }
+    }
+    rep.note("huge payloads: N = 1, 2, 3 with payloads of 2^32 - 1, 2^32 + 5 and 2^33 + 1 bytes (lazily zeroed; values compared by position and length): accepted, and every accessor agrees with the layout".to_string());
+}
+
 fn one_buffer(rep: &mut Report, buf: &[u8]) {
     // owned storage, and borrowed storage at every address modulo 4 (and one modulo-8 variant)
     for (owned, placement) in [(true, None), (false, Some(0usize)), (false, Some(1)), (false, Some(2)), (false, Some(3)), (false, Some(4))] {
@@ -451,6 +502,7 @@ pub fn run(ctx: &Ctx) -> Report {
     let mut rep = Report::new();
     let mut unit = 0usize;
     long_headers(ctx, &mut rep, &mut unit);
+    huge_payloads(ctx, &mut rep, &mut unit);
     let w = ctx.tier.pick(7, 8);
     enumerate(ctx, &mut rep, &WORDS, w, &mut unit);
     let w_small = ctx.tier.pick(8, 9);
@@ -466,6 +518,18 @@ pub fn run(ctx: &Ctx) -> Report {
 }
 
 pub fn replay(text: &str) -> Result<String, String> {
+    if field(text, "check") == Some("view-huge") {
+        let name = field(text, "case").unwrap_or("");
+        let Some((_, header, payload)) = huge_cases().into_iter().find(|c| c.0 == name) else {
+            machinery_failure("unknown huge-payload case");
+        };
+        let buf = huge_buffer(&header, payload);
+        return match check_buffer_at(&buf, false, None) {
+            Ok(true) => Err(format!("{}: accepted and consistent", name)),
+            Ok(false) => Ok(format!("{}: rejected although the format allows it", name)),
+            Err(e) => Ok(format!("{}: {}", name, e)),
+        };
+    }
     let Some(buf) = field(text, "buffer").and_then(unhex) else {
         machinery_failure("cannot parse buffer");
     };
